@@ -369,14 +369,28 @@ def _include_in_config_type(cc, ctx, res, fmt, seed):
     db.tls.extra = cc.IncludeField()
     schema = cc.Schema()
     schema.x = cc.IntField(default=0)
-    schema.db = cc.make_type(db, "Database", module="vf_types")
+    db_type = cc.make_type(db, "Database", module="vf_types")
+    schema.db = db_type
+    schema.replica = db_type  # a second section of the very same type
+    schema.inc = cc.IncludeField()
     cfg = schema()
     top, low = os.path.join(d, "ct-db.cfg"), os.path.join(d, "ct-tls.cfg")
     with open(top, "wb") as fp:
         fp.write(codec.dumps(cfg, {"host": "included-host", "port": 27017}))
     with open(low, "wb") as fp:
         fp.write(codec.dumps(cfg, {"depth": 3}))
-    doc = {"x": 4, "db": {"include": "ct-db.cfg" if seed % 2 else top, "host": "main-host", "tls": {"extra": low, "cert": "main.pem"}}}
+    rep, other = os.path.join(d, "ct-replica.cfg"), os.path.join(d, "ct-other.cfg")
+    with open(rep, "wb") as fp:
+        fp.write(codec.dumps(cfg, {"host": "replica-host", "port": 27018}))
+    # an included file may itself give the include key a value: the included value wins for that key like for any other (it is
+    # the name of another existing file here; it is not followed)
+    with open(other, "wb") as fp:
+        fp.write(codec.dumps(cfg, {"x": 99}))
+    rootinc = os.path.join(d, "ct-root.cfg")
+    with open(rootinc, "wb") as fp:
+        fp.write(codec.dumps(cfg, {"x": 4, "inc": other}))
+    doc = {"x": 1, "inc": rootinc, "db": {"include": "ct-db.cfg" if seed % 2 else top, "host": "main-host", "tls": {"extra": low, "cert": "main.pem"}},
+           "replica": {"include": "ct-replica.cfg" if seed % 2 else rep}}
     res.count("file_cases_include_inside_a_config_type")
     try:
         cfg.loads(codec.dumps(cfg, doc), fmt)
@@ -411,6 +425,15 @@ def _include_in_config_type(cc, ctx, res, fmt, seed):
     if got != want:
         res.viol("M-include", "config-type-scope:state", "%s: include files named inside a configuration-type section: expected "
                  "(x, db.host, db.port, db.tls.cert, db.tls.depth) = %r, got %r" % (fmt, want, got))
+        return False
+    if (cfg.replica.host, cfg.replica.port) != ("replica-host", 27018):
+        res.viol("M-include", "config-type-scope:second-section-of-the-type", "%s: the second section declared with the same configuration "
+                 "type names an include file, too: expected replica.host / port = 'replica-host' / 27018, got %r / %r" % (
+                     fmt, cfg.replica.host, cfg.replica.port))
+        return False
+    if cfg.inc != other:
+        res.viol("M-include", "include-key-given-by-the-included-file", "%s: the included file gives the include key itself a value (%r); "
+                 "the included value wins like for any other key, the field holds %r" % (fmt, other, cfg.inc))
         return False
     return True
 
